@@ -242,7 +242,19 @@ def clause_e(ctx, P):
     ctx.ob("C03e.flush-only-on-cache-flush-bit", f.name, bool(fe) and all(must_pass_edges(f, b, e_cf) for b in fe), f.loc(), "the flush pass runs only for an incoming record with the cache-flush bit")
 
 
+def clause_live_predicates(ctx, P):
+    """what 'live' means for the guards of clause c: expires_soon ≡ now + 1000 >= expires, is_expired ≡ now >= expires"""
+    from .f12 import ret_exprs
+    for name, lhs_const in (("DnsRecord::is_expired", 0), ("DnsRecord::expires_soon", 1000)):
+        f = P.one(name)
+        rs = ret_exprs(P, f)
+        want = expect_cmp("Ge", {P2: 1, (): lhs_const}, {F("expires"): 1})
+        ctx.ob("C03c.F12.live-predicate", f.name, len(rs) == 1 and norm_cmp(rs[0]) == want, f.loc(),
+               "%s ≡ now%s >= expires (%s)" % (name.split("::")[-1], (" + %d" % lhs_const) if lhs_const else "", "; ".join(show(r) for r in rs)))
+
+
 def run(ctx, P):
+    clause_live_predicates(ctx, P)
     clause_ab(ctx, P)
     clause_c(ctx, P)
     clause_d(ctx, P)
